@@ -99,7 +99,11 @@ def run(R, ctx):
     eff = sorted({effect_class(n_) for (p_, bb, n_) in cg.reaches_effect(ib.path, lambda n_, t: effect_class(n_) is not None and effect_class(n_).startswith('FS_'))})
     R.check('R11.4', f"{ib.path}|no-file-is-read", not reads, f"file-system effects of initialisation: {eff}",
             f"start-up reads file contents ({reads[:2]}): its state would depend on something a kill can leave half-written", where=ib.loc(), sample={'fs_effect_classes': eff})
-
+    # restart: the left-over current file of the previous process is found under the name this naming writes to and rotated (or
+    # continued) - never truncated by the open that follows (start table shared with C06 R06.3/R06.5)
+    R.rule('R11.5', 'start table: the previous current file is rotated or continued, not truncated (shared with R06.3)')
+    import c06 as _c06
+    _c06.start_table(Relabel(R, {'R06.3': 'R11.5', 'R06.5': 'R11.5'}), ctx)
 
 class _To:
     def __init__(self, R, to):
